@@ -215,10 +215,66 @@ def socket_path(ctx, res):
     chain.unpatch()
 
 
+def near_limit(ctx, res):
+    """frames whose legal length is at or just below the limit, followed by more frames: the limit is configured small (in
+    every loaded module that holds the constant, and in the model) so that such frames are a few hundred bytes; every 2-way
+    cut and random cuts.  What is buffered at any moment (header bytes, the start of the next frame) is not what the limit
+    is about."""
+    import sys
+    rng = ctx.rng
+    saved = []
+    for limit in (ctx.scale((260,), (260, 1000)) ):
+        for mn, m in list(sys.modules.items()):
+            if mn.startswith("skepticoin") and m is not None and hasattr(m, "MAX_MESSAGE_SIZE"):
+                saved.append((m, getattr(m, "MAX_MESSAGE_SIZE")))
+                setattr(m, "MAX_MESSAGE_SIZE", limit)
+        try:
+            ops, impl = [], []
+            for below in (0, 1, 5, 9):
+                def padded(n):
+                    while True:
+                        p_ = gens.msg_header(rng).serialize() + gens.message(rng).serialize()
+                        if len(p_) <= n:
+                            return p_ + gens.rb(rng, n - len(p_))      # what follows the message inside a frame is ignored
+                big = padded(limit - below)
+                small = [gens.msg_header(rng).serialize() + gens.message(rng).serialize() for _ in range(2)]
+                small = [x for x in small if len(x) <= limit]
+                s = frame(small[0]) + frame(big) + b"".join(frame(x) for x in small[1:]) if small else frame(big)
+                whole_line, payloads, err = impl_feed([s])
+                ops.append("frames %d %s" % (limit, hx(s)))
+                impl.append(whole_line)
+                res.count("near_limit_streams")
+                if err != "none" or len(payloads) != 1 + len(small):
+                    res.violations.append({"kind": "a well-formed stream with a frame of %d bytes (limit %d) was not delivered whole: "
+                                                   "%d message(s), outcome %s" % (limit - below, limit, len(payloads), err),
+                                           "stream": s.hex(), "limit": limit})
+                n = len(s)
+                pts_list = [[a] for a in range(0, n + 1)] + [sorted(rng.randrange(0, n + 1) for _ in range(rng.randrange(2, 6)))
+                                                             for _ in range(30)]
+                for pts in pts_list:
+                    chunks = cuts(s, pts)
+                    line, _, _ = impl_feed(chunks)
+                    ops.append("frames %d %s" % (limit, " ".join(hx(c) for c in chunks)))
+                    impl.append(line)
+                    res.case(("near-limit", limit, below, tuple(pts)), nontrivial=True)
+                    if line != whole_line:
+                        res.violations.append({"kind": "extraction depends on fragmentation (a frame of legal length %d, limit %d)"
+                                                       % (limit - below, limit), "chunks": [c.hex() for c in chunks],
+                                               "limit": limit, "fragmented": line[-120:], "unfragmented": whole_line[-120:]})
+                        break
+            model = ctx.driver.ask(ops)
+            kit.compare(res, ops, impl, model)
+        finally:
+            for m, v in saved:
+                setattr(m, "MAX_MESSAGE_SIZE", v)
+            saved = []
+
+
 def run(ctx):
     res = kit.Result()
     rng = ctx.rng
     socket_path(ctx, res)
+    near_limit(ctx, res)
     ops, impl = [], []
     kinds = ["plain", "badmagic", "toobig", "atlimit", "pastend", "zerolen", "garbagepayload", "mutated", "long", "short", "short",
              "tail_badmagic", "tail_toobig", "tail_partial", "tail_badmagic", "toobig_wrap", "toobig_wrap",
